@@ -18,7 +18,7 @@ RULE = ('cases = protocol state (6, reached by a canonical prefix on the real lo
         'seeded segmentation; non-trivial = the stream is not a valid PDU sequence under R-codec '
         '(unrecognised, malformed, DIMSE-level garbage or incomplete); distinct = distinct '
         '(state, base, operator, ending)'
-        '; states incl. the release-collision states Sta9-Sta12; floods with a non-consuming user; FIN right behind the last byte; peer-announced maximum 1..6 followed by a local send (real association layer); reactions judged under FIN right behind the last byte; behind family: valid PDUs + invalid PDU in one segment + FIN; FIN at the moment of ARTIM expiry; deaf: a peer that sends PDUs to be answered and never reads, on a connection with a time-out')
+        '; states incl. the release-collision states Sta9-Sta12; floods with a non-consuming user; FIN right behind the last byte; peer-announced maximum 1..6 followed by a local send (real association layer); reactions judged under FIN right behind the last byte; behind family: valid PDUs + invalid PDU in one segment + FIN; FIN at the moment of ARTIM expiry; deaf: a peer that sends PDUs to be answered and never reads, on a connection with a time-out; park: ARTIM runs out on a slow provider thread (line-level pre-emption with parking inside the provider loop)')
 ASSUMPTIONS = ['two-branch reaction oracle: a PDU that is malformed under a strict reading may be '
                'treated as invalid (Evt19 row) or leniently as its own type; valid PDUs and '
                'DIMSE-level garbage are only required not to crash/hang and to end orderly',
@@ -91,6 +91,14 @@ def cases(tier, seed):
             for e in ENDINGS:
                 yield dict(state=st, base='echo', op=['flood', nmsg], ending=e,
                            seed=seed * 7 + i)
+    # park: a slow provider thread (line-level pre-emption with parking of up to 0.2 virtual
+    # seconds inside the loop of the provider) while ARTIM runs out on a peer that has sent
+    # something unrecognisable and then keeps quiet: the moment of expiry falls anywhere
+    # between two lines of the loop
+    for st in ('Sta2', 'Sta13', 'Sta13b', 'Sta6a', 'Sta5'):
+        for j in range(6 if tier == 'quick' else 60):
+            yield dict(state=st, base='echo', op=['deaf', 1 + j % 2], ending='silence', park=True,
+                       seed=seed * 17 + j)
     # deaf: the peer keeps sending PDUs that each have to be answered (A-ABORT) and never reads;
     # the connection has a time-out (set by the application on the socket, or process-wide), so
     # the write that finds the buffers full fails with socket.timeout in the middle of an action
@@ -338,7 +346,24 @@ def run_case(case):
     if case['op'][0] == 'unusable-max':
         return _unusable_max(case)
     role, prefix = STATES[case['state']]
-    drv = c05.Driver(role, 'c12/%s' % case['seed'])
+    pre = None
+    if case.get('park'):
+        # (installed before the provider thread exists: a thread is traced from its start)
+        from .. import preempt
+        pre = preempt.Preempter(None, prob=0.4, park_prob=0.5, park_max=0.2,
+                                funcs={'run', '_check_network', '_check_timer',
+                                       '_check_outgoing_pdu', '_process_incoming',
+                                       '_check_incoming_pdu', 'check', 'remaining'},
+                                files=('dulprovider.py',))
+        pre.install()
+    try:
+        drv = c05.Driver(role, 'c12/%s' % case['seed'])
+    except BaseException:
+        if pre is not None:
+            pre.uninstall()
+        raise
+    if pre is not None:
+        pre.sim = drv.rig.sim
     viol = []
     rig = drv.rig
     st_name = case['state'].rstrip('abr')
@@ -407,7 +432,8 @@ def run_case(case):
                                            c05._where(rig.task.tb)),
               'stream %s classes %r' % (stream.hex()[:200], classes))
             return _fin(res, drv, case, nontrivial)
-        if not settled:
+        if not settled and not case.get('park'):
+            # (a provider that is parked again and again is slow, not stuck)
             v('never-quiescent blocked=%s' % rig.task.kind, 'stream %s' % stream.hex()[:200])
         if deaf:
             wrem = b''      # (a write cut short by the time-out is no PDU of the library's making)
@@ -475,6 +501,9 @@ def run_case(case):
         rig.settle()
         rig.advance(c05.ARTIM + 1.0)
         rig.settle()
+        if case.get('park'):
+            rig.advance(10.0)       # a slow thread gets the time it needs
+            rig.settle()
         rig.wire_take()
         pdus2, wrem2 = rc.parse_stream(rig.wire_bytes[wire0:])
         if deaf:
@@ -503,6 +532,8 @@ def run_case(case):
                         'fault.%s' % case['ending']: 1}
         return _fin(res, drv, case, nontrivial)
     finally:
+        if pre is not None:
+            pre.uninstall()
         drv.close()
 
 
